@@ -28,10 +28,17 @@ def _match_value(spec, val):
 
 
 def load_findings():
-    if not os.path.exists(FINDINGS_FILE):
-        return []
-    with open(FINDINGS_FILE) as f:
-        return json.load(f)["findings"]
+    out = []
+    if os.path.exists(FINDINGS_FILE):
+        with open(FINDINGS_FILE) as f:
+            out += json.load(f)["findings"]
+    d = os.path.join(VERIF, "findings.d")   # per-property proposals, merged into known_findings.json after review
+    if os.path.isdir(d):
+        for fn in sorted(os.listdir(d)):
+            if fn.endswith(".json"):
+                with open(os.path.join(d, fn)) as f:
+                    out += json.load(f)["findings"]
+    return out
 
 
 class Ctx:
